@@ -46,7 +46,7 @@ def agrees(minic, impl):
     if minic == impl: return True
     if minic in ('skip',): return True
     it = set(impl.split())
-    return all(t in it for t in minic.split() if not t.startswith('leak='))
+    return all(t in it for t in minic.split() if not t.startswith(('leak=', 'touch=')))
 
 def resecret(line, g):
     """same public shape, different secret bytes: every data field is replaced by random bytes of the same length"""
@@ -148,7 +148,7 @@ def check(ctx):
                 elif res.startswith('fault'):
                     faults += 1
                     if faults <= 1: ctx.broken_proofs.append('MiniC interpreter of the regenerated source faults on "%s": %s' % (line[:120], res[:160]))
-            xs = re.sub(r' leak=\S+', '', x)
+            xs = re.sub(r' (leak|touch)=\S+', '', x)
             if not x.startswith('fault') and not agrees(xs, c):
                 mism += 1; s['diffs'] += 1
                 if mism <= 1: ctx.broken_proofs.append('MiniC(regenerated source) and the compiled implementation disagree on "%s": minic=%s impl=%s' % (l[:120], xs[:120], c[:120]))
